@@ -102,7 +102,55 @@ def replay_noisy(case) -> dict:
     return dict(failures=fails)
 
 
+def replay_groups(case) -> dict:
+    """Clearly separated groups of VERY unequal size (one large cloud, two handfuls of outliers) get distinct clusters for every seed;
+    projecting and predicting images given as a numpy array neither changes them nor depends on earlier calls (soft mask)."""
+    import dask.array as da
+    from acryo.classification import PcaClassifier
+
+    rng = np.random.default_rng(case["seed"])
+    box = (5, 5, 5)
+    V = 125
+    big, small = case["big"], 4
+    base = rng.normal(size=V)
+    d1, d2 = rng.normal(size=V), rng.normal(size=V)
+    # the two handfuls lie far from the cloud (45) and nearer to each other (13), all far beyond every group's own radius (< 3.5)
+    X = np.concatenate([base + 0.3 * rng.normal(size=(big, V)), base + 4.0 * d1 + 0.6 * d2 + 0.1 * rng.normal(size=(small, V)),
+                        base + 4.0 * d1 - 0.6 * d2 + 0.1 * rng.normal(size=(small, V))])
+    truth = [0] * big + [1] * small + [2] * small
+    perm = rng.permutation(len(truth))
+    X = X[perm].astype(np.float32).reshape((-1,) + box)
+    truth = [truth[i] for i in perm]
+    zz, yy, xx = np.indices(box)
+    soft = np.clip(1.2 - np.sqrt((zz - 2) ** 2 + (yy - 2) ** 2 + (xx - 2) ** 2) / 3.0, 0.2, 1.0).astype(np.float32)
+    desc = dict(part="groups", big=big, seed=case["seed"], clf_seed=case["clf_seed"])
+    fails = []
+    clf = PcaClassifier(da.from_array(X, chunks=(64,) + box), soft, n_components=3, n_clusters=3, seed=case["clf_seed"])
+    engine.api(clf.run)
+    labels = [int(x) for x in clf.labels]
+    groups = {}
+    for t, l in zip(truth, labels):
+        groups.setdefault(t, set()).add(l)
+    if any(len(v) != 1 for v in groups.values()) or len({next(iter(v)) for v in groups.values()}) != 3:
+        fails.append(dict(desc, clause="SeparatedGroupsGetDistinctClusters", sizes=[labels.count(k) for k in range(3)]))
+    Xn = np.array(X, copy=True)
+    ref = np.asarray(clf.get_transform(), dtype=np.float64)
+    t1 = np.asarray(engine.api(clf.transform, Xn), dtype=np.float64)
+    t2 = np.asarray(engine.api(clf.transform, Xn), dtype=np.float64)
+    p1 = [int(x) for x in engine.api(clf.predict, Xn)]
+    sc = float(np.abs(ref).max())
+    if not np.array_equal(Xn, X):
+        fails.append(dict(desc, clause="InputImagesChanged"))
+    if not (np.allclose(t1, ref, atol=1e-4 * sc) and np.allclose(t2, ref, atol=1e-4 * sc)):
+        fails.append(dict(desc, clause="TransformOfTheStackIsGetTransform", first=float(np.abs(t1 - ref).max() / sc), second=float(np.abs(t2 - ref).max() / sc)))
+    if p1 != labels:
+        fails.append(dict(desc, clause="PredictOfTheStackGivesItsLabels"))
+    return dict(failures=fails)
+
+
 def replay(case) -> dict:
+    if case.get("kind") == "groups":
+        return replay_groups(case)
     if case.get("kind") == "classify":
         return replay_classify(case)
     if case.get("kind") == "noisy":
@@ -260,7 +308,8 @@ def run(rep: engine.Report, tier: str, seed: int):
     cls += [dict(kind="classify", n=n, loader=l, seed=seed + 7 + i, tilt=list(t), orient=o)
             for i, (n, l, t, o) in enumerate((n, l, t, o) for n in (8, 12) for l in ("single", "batch") for t in ((-60.0, 60.0), (-40.0, 50.0)) for o in ("identity", "mixed"))]
     noisy = [dict(kind="noisy", n=n, box=list(b), seed=seed * 31 + i) for i, (n, b) in enumerate((n, b) for n in (6, 12, 30, 60) for b in ((4, 4, 4), (6, 7, 8), (7, 8, 9), (10, 10, 10)))]
-    allc = sel + cls + noisy
+    grp = [dict(kind="groups", big=b, seed=seed + 11 * i, clf_seed=cs) for i, (b, cs) in enumerate((b, cs) for b in (200, 400) for cs in range(12))]
+    allc = sel + cls + noisy + grp
     results = engine.parallel_replay("harness.props.c18", "replay", allc)
     engine.collect(rep, allc, results, key=lambda c: c.get("cfg") or c)
     rep.traces_validated = len(allc)
